@@ -564,19 +564,49 @@ func (r *runner) gen(rng *rand.Rand, ids []uint64) (jev, bool) {
 	return jev{}, false
 }
 
+// runMock runs one mock-clock case under a watchdog: a scheduler that dead-locks (for
+// instance holding s.mu while the mock clock blocks in Tick) must not hang the driver.
 func runMock(c *jcase, replay bool) {
+	if failCount.Load() >= 3 {
+		c.Evs, c.Obs, c.Cut = nil, nil, "skipped: three earlier cases already failed on the implementation"
+		return
+	}
+	var mu sync.Mutex
+	pub := *c
+	publish := func(x *jcase) {
+		mu.Lock()
+		pub = *x
+		pub.Evs = append([]jev(nil), x.Evs...)
+		pub.Obs = append([]jobs(nil), x.Obs...)
+		mu.Unlock()
+	}
 	done := make(chan struct{})
+	lc := *c
 	go func() {
 		defer close(done)
-		if failCount.Load() >= 3 {
-			c.Evs, c.Obs, c.Cut = nil, nil, "skipped: three earlier cases already failed on the implementation"
-			return
+		runMockInner(&lc, replay, publish)
+		publish(&lc)
+	}()
+	select {
+	case <-done:
+	case <-time.After(120 * time.Second):
+		mu.Lock()
+		pub.Fail = "case did not finish within 120s: the scheduler is dead-locked or live-locked (last event not observed)"
+		if len(pub.Evs) > len(pub.Obs) {
+			pub.Evs = pub.Evs[:len(pub.Obs)]
 		}
-		defer func() {
-			if c.Fail != "" {
-				failCount.Add(1)
-			}
-		}()
+		mu.Unlock()
+	}
+	mu.Lock()
+	*c = pub
+	mu.Unlock()
+	if c.Fail != "" {
+		failCount.Add(1)
+	}
+}
+
+func runMockInner(c *jcase, replay bool, publish func(*jcase)) {
+	{
 		r := newRunner(c)
 		defer r.shutdown()
 		if !r.waitQuiescent() {
@@ -594,8 +624,9 @@ func runMock(c *jcase, replay bool) {
 			c.Evs = nil
 		}
 		for i := 0; ; i++ {
+			publish(c)
 			var e jev
-			if replay || i < len(evs) { // scripted prefix (hand-picked cases) or replay
+			if replay || i < len(evs) { // scripted (hand-picked cases) or replay
 				if i >= len(evs) {
 					break
 				}
@@ -618,10 +649,11 @@ func runMock(c *jcase, replay bool) {
 					break
 				}
 			}
-			o, ok := r.applyMock(e)
 			if !replay {
 				c.Evs = append(c.Evs, e)
+				publish(c)
 			}
+			o, ok := r.applyMock(e)
 			if !ok {
 				c.Fail = r.fail
 				if !replay {
@@ -634,11 +666,13 @@ func runMock(c *jcase, replay bool) {
 			c.Obs = append(c.Obs, o)
 			if r.fail != "" {
 				c.Fail = r.fail
+				if replay {
+					c.Evs = c.Evs[:i+1]
+				}
 				break
 			}
 		}
-	}()
-	<-done
+	}
 }
 
 // ---- real mode ----
